@@ -1,4 +1,5 @@
 import Driver.Fam.Numb
+import CifModel.Model.NumbLimbs
 /- family `todbl` (C10): `todbl <hex digit string> <scale>` ↦ `td <dbl>` — the file-static to_double() -/
 namespace Driver.Fam.Todbl
 open Driver CifModel CifModel.Model.Numb
@@ -9,7 +10,14 @@ def handle : Handler
   | [ds, sc] => do
       let chars ← unhex ds
       let scale ← sc.toInt?
-      if chars.all isDigit then pure ("td " ++ Driver.Fam.Numb.showDbl (toDoubleBig (digitVals chars) scale)) else none
+      if chars.all isDigit then
+        -- both levels of the model must agree: the exact-arithmetic level and the base-10^9 limb level
+        let big := toDoubleBig (digitVals chars) scale
+        match CifModel.Model.NumbLimbs.toDoubleLimbs (digitVals chars) scale with
+        | some l => if l = big then pure ("td " ++ Driver.Fam.Numb.showDbl big)
+                    else pure ("td LIMB-LEVEL " ++ Driver.Fam.Numb.showDbl l ++ " BIG-LEVEL " ++ Driver.Fam.Numb.showDbl big)
+        | none => pure ("td LIMB-LEVEL array-overrun BIG-LEVEL " ++ Driver.Fam.Numb.showDbl big)
+      else none
   | _ => none
 
 end Driver.Fam.Todbl
